@@ -1,4 +1,4 @@
-import Aqua.Exec.Scalars
+import Aqua.Exec.Streams
 /-
 Replica of the instruction executor (`air/src/execution_step/instructions/**`, `resolver/**`,
 `lambda_applier/**`) for the stream-free fragment: call (scalar / no output), seq, par, xor, match,
@@ -113,7 +113,11 @@ def resolveValue (c : Ctx) (v : Value) : ER Resolved :=
     let (v, t, p) ← r.parts
     let sel ← selectByLambdaFromScalar c.scalars v l
     pure (sel, [populateTetrapletWithLambda t l], p)
-  | .canon _ | .canonWL .. | .canonMap _ | .canonMapWL .. => unmodelled "canon stream operand"
+  | .canon name => do
+    -- `Resolvable for ast::CanonStream`: the whole canon stream as an array, one tetraplet per element
+    let cs ← c.scalars.getCanonStream name
+    pure (.arr (cs.canonStream.values.map (·.result)), cs.canonStream.values.map (·.tetraplet), .canon cs.cid)
+  | .canonWL .. | .canonMap _ | .canonMapWL .. => unmodelled "canon stream operand with lens / canon map"
 
 /-- `try_jvalue_to_string` of triplet parts -/
 def resolveToString (c : Ctx) (v : Value) : ER String :=
@@ -172,6 +176,50 @@ def trackServiceResult (env : Env) (s : CidState) (v : JVal) (t : Tetraplet) (ar
   let agg : ServiceResultAgg := ⟨vc, argumentHash, tc⟩
   let cid := env.hash agg.json
   (cid, { s with serviceResults := upsert s.serviceResults cid agg })
+
+/-- `track_canon_value` -/
+def trackCanonValue (env : Env) (s : CidState) (v : ValueAggregate) : Cid × CidState :=
+  let (vc, s) := trackValue env s v.result
+  let (tc, s) := trackTetraplet env s v.tetraplet
+  let agg : CanonElemAgg := ⟨vc, tc, v.provenance⟩
+  let cid := env.hash agg.json
+  (cid, { s with canonElements := upsert s.canonElements cid agg })
+
+/-- `populate_unseen_cid_context` without the registration: element ids, tetraplet id, canon result id -/
+def trackCanonResult (env : Env) (s : CidState) (cs : CanonStream) : Cid × CidState :=
+  let (vcs, s) := cs.values.foldl (fun (acc : List Cid × CidState) v => let (cid, s') := trackCanonValue env acc.2 v; (acc.1 ++ [cid], s')) ([], s)
+  let (tc, s) := trackTetraplet env s cs.tetraplet
+  let agg : CanonResultAgg := ⟨tc, vcs⟩
+  let cid := env.hash agg.json
+  (cid, { s with canonResults := upsert s.canonResults cid agg })
+
+/-- `get_value_by_cid` -/
+def getValueByCid (env : Env) (s : CidState) (cid : Cid) : ER JVal :=
+  match lookup s.values cid with
+  | none => uncatchable (.valueForCidNotFound "value" cid)
+  | some raw =>
+    match env.parseJson raw with
+    | none => .panic "raw_value.rs:get_value:expect(TODO handle error)"
+    | some v => .ok v
+
+def getTetrapletByCid (s : CidState) (cid : Cid) : ER Tetraplet :=
+  match lookup s.tetraplets cid with
+  | none => uncatchable (.valueForCidNotFound "tetraplet" cid)
+  | some t => .ok t
+
+/-- `get_canon_value_by_cid` (the trace position of a canon element is the default `0`) -/
+def getCanonValueByCid (env : Env) (s : CidState) (cid : Cid) : ER ValueAggregate :=
+  match lookup s.canonElements cid with
+  | none => uncatchable (.valueForCidNotFound "canon aggregate" cid)
+  | some agg => do
+    let v ← getValueByCid env s agg.value
+    let t ← getTetrapletByCid s agg.tetraplet
+    pure (ValueAggregate.new v t 0 agg.provenance)
+
+/-- `verify_canon` -/
+def verifyCanon (expected stored : Tetraplet) : ER Unit :=
+  if expected != stored then uncatchable (.instructionParametersMismatch "canon tetraplet" expected.debug stored.debug)
+  else .ok ()
 
 /-- `resolve_service_info` (`RawValue::get_value` panics on text that is not JSON) -/
 def resolveServiceInfo (env : Env) (s : CidState) (cid : Cid) : ER (JVal × Tetraplet × ServiceResultAgg) :=
@@ -238,14 +286,21 @@ def populateFromPeerServiceResult (env : Env) (c : Ctx) (result : JVal) (t : Tet
     let sc ← c.scalars.setScalarValue name va
     let c := ({ c with scalars := sc }).recordCallCid t.peerPk cid
     pure (.executed (.scalar cid), c)
-  | .stream .. => unmodelled "call with stream output"
+  | .stream name pos => do
+    let (cid, cs) := trackServiceResult env c.cid result t argHash
+    let c := { c with cid := cs }
+    let va : ValueAggregate := ⟨result, t, tracePos, .serviceResult cid⟩
+    let c ← c.addStreamValue va name .new pos
+    let c := c.recordCallCid t.peerPk cid
+    -- `executed_stream_stub`: the generation is filled in by compaction
+    pure (.executed (.stream cid generationStub), c)
   | .none =>
     let cid := env.hash result.render
     .ok (.executed (.unused cid), c)
 
 /-- `populate_context_from_data` -/
 def populateFromData (env : Env) (c : Ctx) (value : ValueRef) (argHash : String) (t : Tetraplet) (tracePos : Nat)
-    (out : CallOutput) : ER Ctx :=
+    (out : CallOutput) (src : ValueSource) : ER Ctx :=
   match out, value with
   | .scalar name, .scalar cid => do
     let (v, curT, agg) ← resolveServiceInfo env c.cid cid
@@ -253,7 +308,12 @@ def populateFromData (env : Env) (c : Ctx) (value : ValueRef) (argHash : String)
     let va : ValueAggregate := ⟨v, t, tracePos, .serviceResult cid⟩
     let sc ← c.scalars.setScalarValue name va
     pure { c with scalars := sc }
-  | .stream .., .stream .. => unmodelled "call with stream output"
+  | .stream name pos, .stream cid generation => do
+    let (v, curT, agg) ← resolveServiceInfo env c.cid cid
+    verifyCall argHash t agg.argumentHash curT
+    let va : ValueAggregate := ⟨v, t, tracePos, .serviceResult cid⟩
+    let g : Generation := match src with | .previousData => .previous generation | .currentData => .current generation
+    c.addStreamValue va name g pos
   | .none, .unused _ => .ok c
   | _, _ => uncatchable .callResultNotCorrespondToInstr
 
